@@ -18,8 +18,9 @@ LEVEL_TEXT = ('Decides clauses C02-a..f: no panic sink and no unguarded unsafe o
               'se`, which accepts a leading `+`) is applied to wire text in Request::read; the value of a query pair yielded by QueryParams::iter runs from after the'
               " pair's first `=` to the end of the pair (not one item of a split at every `=`, no other upper bound). The integer-FromStr clause ranges over everythi"
               'ng Request::read can reach in the crate (local helpers included); the head parser is given a prefix of the buffer bounded by the received count, never'
-              ' the whole buffer; the fallback closure of Headers::get consults the table before every answer it gives. Decides these clauses, not the faithfulness o'
-              'f every parsed field for all byte strings.')
+              ' the whole buffer; the fallback closure of Headers::get consults the table before every answer it gives. C02-i: the part of an announced body that was'
+              " not in the head's segment is read with read_exact or with reads repeated in a loop, never with a single read. Decides these clauses, not the faithful"
+              'ness of every parsed field for all byte strings.')
 
 STOP = [r"^ohkami::response::", r"<impl ohkami::response::Response>", r"<ohkami::response::Response as "]
 
@@ -91,6 +92,7 @@ def run(ck, progs):
         ck.guard("C02-e MUSTPASS header lookup", lambda: c02e(ck, prog))
         ck.guard("C02-f API-MISUSE numeric header", lambda: c02f(ck, prog))
         ck.guard("C02-g PAIR query value extent", lambda: c02g(ck, prog))
+        ck.guard("C02-i MUSTPASS body read completely", lambda: c02i(ck, prog))
         ck.guard("C02-h PAIR payload extent", lambda: c02h(ck, prog))
     ck.config = None
 
@@ -369,3 +371,22 @@ def c02h(ck, prog):
         n += 1
         ck.ob(R, o["key"], o["ok"], o["where"], o["detail"], how=o["how"], nontrivial=o.get("nontrivial", True))
     ck.floor(R, "payload-extent clauses", n, 2)
+
+
+def c02i(ck, prog):
+    """`the handler sees the body the wire carried`: the part of an announced body that was not in the head's segment is read
+    with a read that fills its buffer (read_exact), or with reads repeated in a loop -- a single `read` returns after
+    whatever segment arrived first and leaves the rest of the payload zero."""
+    from .lib.bound import natural_loops
+    R = "C02-i MUSTPASS body read completely"
+    f = prog.coroutine_body(prog.one(r"^ohkami::request::Request::read_payload$").key)
+    f = prog.awaited_inlined(f)
+    loops = natural_loops(f)
+    partial = [c for c in f.calls() if re.search(r"(AsyncReadExt|ReadExt|AsyncRead|io::Read)::read$", c.callee or "") or re.search(r"(AsyncReadExt|ReadExt)::read$", c.decl or "")]
+    exact = [c for c in f.calls() if re.search(r"::read_exact$", c.callee or "") or re.search(r"::read_exact$", c.decl or "")]
+    # (the await of a read future is itself a poll loop: a loop that repeats the read contains the call creating the future)
+    single = [c for c in partial if not any(c.bb in body for body in loops.values())]
+    ok = not single and (bool(exact) or bool(partial))
+    ck.ob(R, "read_payload:fills-the-body", ok, f.loc(single[0].sp) if single else f.loc(None),
+          "" if ok else ("read_payload fetches the rest of the body with a single `read` (not read_exact, not in a loop): it returns after the first segment, and the bytes that arrive later are missing from the payload (left zero)" if single else "no stream read found in read_payload"),
+          how="%d read_exact, %d looped read(s)" % (len(exact), len(partial) - len(single)))
